@@ -215,10 +215,65 @@ def job(a):
 
 
 def job_wire(a):
-    """role policy: frames written by a real client are masked with a fresh key
-    per frame, frames written by a real server are not (default options)."""
-    from harness import ws_single
-    return ws_single.mask_policy_job(a)
+    """role policy: with default options every frame a real client writes (message, fragments,
+    frame API, prepared message, ping, pong, close) carries the mask bit and a fresh 4-octet key,
+    and its payload is the exact XOR with that key; frames a real server writes are unmasked."""
+    from harness import ws
+    from ref import ws_frames as F
+    from ref.masking import xor
+    role = a["role"]
+    viol = []
+    ep = ws.open_endpoint(role)
+    p = ep.proto
+    start = len(ep.t.written)
+    p.sendMessage(b"hello", False)
+    big = bytes(range(256)) * 3
+    p.sendMessage(big, True, fragmentSize=100)
+    p.beginMessage(True)
+    p.beginMessageFrame(5)
+    p.sendMessageFrameData(b"abcde")
+    p.sendMessageFrame(b"xyz" * 50)
+    p.endMessage()
+    p.sendPreparedMessage(p.factory.prepareMessage(b"prepared" * 20, True))
+    p.sendPing(b"pingpayload")
+    peer_mask = b"\x09\x08\x07\x06" if role == "server" else None
+    ep.feed(F.encode(9, b"answer-me", mask=peer_mask))       # provokes a pong
+    p.sendClose(1000, "bye")
+    raw = bytes(ep.t.written[start:])
+    frames, used = F.parse_frames(raw)
+    n = 0
+    keys = []
+
+    def bad(kind, desc):
+        viol.append({"sig": "C15|wire|%s|%s" % (role, kind), "desc": desc,
+                     "replay": {"env": {}, "func": "props.c15:job_wire", "arg": a}})
+    if used != len(raw) or len(frames) < 10:
+        bad("parse", "written stream does not parse into the expected frames: %d frames, %d of %d octets" % (
+            len(frames), used, len(raw)))
+    for f in frames:
+        n += 1
+        if role == "client":
+            if not f.masked:
+                bad("client-frame-unmasked", "opcode %d len %d" % (f.opcode, f.length))
+            else:
+                keys.append(f.key)
+        elif f.masked:
+            bad("server-frame-masked", "opcode %d len %d" % (f.opcode, f.length))
+    if role == "client":
+        if len(set(keys)) != len(keys):
+            bad("mask-key-reused", "%d frames, %d distinct keys" % (len(keys), len(set(keys))))
+        for f in frames:
+            if not f.masked:
+                continue
+            wire_payload = raw[f.end - f.length:f.end]
+            if wire_payload != xor(f.key, f.payload):
+                bad("payload-not-xor", "opcode %d len %d" % (f.opcode, f.length))
+    data = b"".join(f.payload for f in frames if f.opcode in (0, 1, 2))
+    want = b"hello" + big + b"abcde" + b"xyz" * 50 + b"prepared" * 20
+    if data != want:
+        bad("content", "clear payloads differ from what was sent")
+    return {"evals": n, "viol": viol, "stats": {"wire_frames_" + role: n, "nontrivial": n}}
+
 
 MANIFEST = {
     "text": "Exhaustive enumeration of every (implementation, key, running offset 0..3, length "
